@@ -62,6 +62,7 @@ type Task struct {
 	Steps      int
 	ExitSeq    int // driver step at which it exited
 	ExitVT     time.Duration
+	sleeping   bool // inside simrt.Sleep
 	gate       chan struct{}
 }
 
@@ -503,7 +504,13 @@ func Sleep(site string, d time.Duration) {
 		return
 	}
 	s.block(t, site)
+	s.mu.Lock()
+	t.sleeping = true
+	s.mu.Unlock()
 	time.Sleep(d)
+	s.mu.Lock()
+	t.sleeping = false
+	s.mu.Unlock()
 	s.park(t, site+"/woke")
 }
 
@@ -760,6 +767,19 @@ func (s *Sched) Live() (live, lib int) {
 		}
 	}
 	return
+}
+
+// EnvAsleep reports whether an environment task is inside a virtual sleep (it
+// will wake up by itself).
+func (s *Sched) EnvAsleep() bool {
+	s.mu.Lock()
+	defer s.mu.Unlock()
+	for _, t := range s.Tasks {
+		if !t.Lib && t.State == Blocked && t.sleeping {
+			return true
+		}
+	}
+	return false
 }
 
 // Release lets task t run until its next park, block or exit.
